@@ -29,23 +29,31 @@ def printer_code(k, m, variant):
     return f"let {c} = 0 let {d} = 0 let {i} = 0 while {i} < {m} {{ {i} += 1 {body} }} {c}"
 
 
-def gen_nrepl(rng, bias):
-    """Returns a threadsim scenario (without scheduler fields) and its model."""
+def gen_conn(rng, bias, conn, kbase, foreign_defs, nops_range=(4, 14)):
+    """One connection's client workload.  `foreign_defs` are the k of definers
+    of *other* connections (their names must be invisible here)."""
     r = rng
     nsess = r.weighted([(4, 1), (4, 2), (2, 3)])
-    nops = r.randint(4, 14)
+    nops = r.randint(*nops_range)
     ops = []
-    reqs = []  # model: one dict per op
-    k = 0
+    reqs = []  # model: one dict per request op
+    k = kbase
     sess_ids = []
 
     def add(fields, yields=None, **model):
         nonlocal k
-        ops.append({"op": "msg", "fields": fields, "yields": r.randint(0, 5) if yields is None else yields})
+        op = {"op": "msg", "fields": fields, "yields": r.randint(0, 5) if yields is None else yields}
+        if r.chance(0.25):
+            op["chunks"] = sorted(r.randint(1, 999) for _ in range(r.randint(1, 3)))
+        ops.append(op)
         m = dict(model)
         m["fields"] = fields
-        m["op_index"] = len(ops) - 1
+        m["conn"] = conn
+        m["_op"] = op
         reqs.append(m)
+        # a synchronous client waits for the answer before going on
+        if isinstance(fields.get("id"), str) and r.chance(bias.get("wait", 0.2)):
+            ops.append({"op": "wait", "id": fields["id"], "polls": r.choice([10, 60, 400]), "yields": 0})
 
     for s in range(nsess):
         k += 1
@@ -81,7 +89,7 @@ def gen_nrepl(rng, bias):
                 kind="definer", k=k, session=s)
             defined[s].append(k)
         elif kind == "reader_other":
-            others = [(o, dk) for o in sess_ids if o != s for dk in defined[o]]
+            others = [(o, dk) for o in sess_ids if o != s for dk in defined[o]] + [("foreign", dk) for dk in foreign_defs]
             if others:
                 o, dk = r.choice(others)
                 code = r.choice([f"v{dk}", f"f{dk}(1)"])
@@ -159,28 +167,42 @@ def gen_nrepl(rng, bias):
         else:
             add({"op": "eval", "id": rid, "session": s, "code": "1 + 1"}, kind="plain", session=s, value="2")
 
-    watchdog = r.chance(0.33)
-    if watchdog and r.chance(0.7):
-        pos = r.randint(1, len(ops))
-        ops.insert(pos, {"op": "sigint", "yields": r.randint(0, 3)})
-        for m in reqs:
-            if m["op_index"] >= pos:
-                m["op_index"] += 1
+    if r.chance(0.25):
+        # Ctrl-C in the server's terminal (the watchdog broadcasts it to every session)
+        ops.insert(r.randint(1, len(ops)), {"op": "sigint", "yields": r.randint(0, 3)})
+    if r.chance(0.1):
+        # something that is valid bencode but not a request dict: ignored by the server
+        ops.insert(r.randint(0, len(ops)), {"op": "raw", "value": r.choice([[1, 2], 7, "hello", []]), "yields": r.randint(0, 2)})
     if r.chance(0.15):
-        pos = r.randint(nsess, len(ops))
-        ops.insert(pos, {"op": "disconnect", "yields": r.randint(0, 3)})
-        for m in reqs:
-            if m["op_index"] >= pos:
-                m["op_index"] += 1
+        ops.insert(r.randint(nsess, len(ops)), {"op": "disconnect", "yields": r.randint(0, 3)})
     codec = {}
     if r.chance(0.5):
         codec = {"read_interrupted_permille": r.choice([0, 20, 100]),
+                 "read_short_permille": r.choice([0, 100, 500]),
                  "write_interrupted_permille": r.choice([0, 20, 100]),
                  "write_short_permille": r.choice([0, 100, 500]),
                  "eof_mid_message": r.chance(0.15)}
-    sc = {"ops": ops, "watchdog": watchdog, "codec": codec,
-          "timer_permille": r.choice([20, 100, 300, 600]),
-          "drop_receiver_after": r.randint(1, 12) if r.chance(0.05) else None,
+    for m in reqs:
+        op = m.pop("_op")
+        m["op_index"] = next(i for i, o in enumerate(ops) if o is op)
+    cs = {"ops": ops, "codec": codec, "drop_receiver_after": r.randint(1, 12) if r.chance(0.05) else None}
+    defs = [m["k"] for m in reqs if m["kind"] == "definer"]
+    return cs, reqs, defs
+
+
+def gen_nrepl(rng, bias):
+    """Returns a threadsim scenario (without scheduler fields) and its model:
+    one or two client connections served concurrently by the same server."""
+    r = rng
+    nconn = r.weighted([(7, 1), (3, 2)])
+    conns, reqs, defs = [], [], []
+    for c in range(nconn):
+        cs, rq, df = gen_conn(r.fork(f"conn{c}"), bias, c, 100 * c, list(defs),
+                              nops_range=(4, 14) if nconn == 1 else (3, 9))
+        conns.append(cs)
+        reqs.extend(rq)
+        defs.extend(df)
+    sc = {"conns": conns, "timer_permille": r.choice([20, 100, 300, 600]),
           "step_budget": 20000, "max_steps": 3000000}
     return sc, reqs
 
@@ -194,30 +216,46 @@ def has_status(msg, s):
     return isinstance(st, list) and s in st
 
 
-class Run:
-    """Indexed view of one threadsim result."""
+class ConnView:
+    """One connection of a threadsim run, as the oracles see it."""
 
-    def __init__(self, sc, reqs, res):
-        self.sc, self.reqs, self.res = sc, reqs, res
-        self.events = res["events"]
+    def __init__(self, run, c):
+        self.run = run
+        self.conn = c
+        self.sc = run.sc["conns"][c]
+        self.res = run.res
+        self.reqs = [m for m in run.reqs if m.get("conn", 0) == c]
+        self.events = [e for e in run.events if e.get("_conn") == c]
         self.wire = [e for e in self.events if e["k"] == "WIRE"]
-        self.processed = {e["op_index"] for e in self.events if e["k"] == "REQ"}
-        self.writer_died = any(e["k"] in ("WRITER-DIED", "WRITE-ERROR") for e in self.events)
-        self.ptr2sess = {}
+        self.desync = None
+        # the n-th request the server read on this connection is the n-th dict message the client sent
+        msg_ops = [i for i, o in enumerate(self.sc["ops"]) if o["op"] == "msg"]
+        self.processed = set()
+        n = 0
         for e in self.events:
-            if e["k"] == "SESSION":
-                self.ptr2sess[e["ptr"]] = e["session"]
+            if e["k"] != "REQ":
+                continue
+            if n >= len(msg_ops):
+                self.desync = f"connection {c}: the server read more requests than the client sent"
+                break
+            oi = msg_ops[n]
+            want = self.sc["ops"][oi]["fields"]
+            if e["msg"].get("id") != want.get("id") or e["msg"].get("op") != want.get("op"):
+                self.desync = f"connection {c}: request #{n} read by the server is {e['msg']} but the client sent {want}"
+                break
+            self.processed.add(oi)
+            n += 1
+        self.writer_died = any(e["k"] == "WRITER-DIED" for e in self.events)
         self.by_id = {}
         for w in self.wire:
             i = w["msg"].get("id")
             if isinstance(i, str):
                 self.by_id.setdefault(i, []).append(w)
-        self.budget_hit = any(e["k"] == "BUDGET" for e in self.events)
+        self.budget_hit = run.budget_hit
         # which sessions existed when each request was handled (for dispatch modelling)
         self.live = {}
         live = set()
         created = 0
-        closed_at = {}
         for m in sorted(self.reqs, key=lambda m: m["op_index"]):
             if m["op_index"] not in self.processed:
                 continue
@@ -233,6 +271,48 @@ class Run:
         return [w for w in self.by_id.get(rid, []) if has_status(w["msg"], "done")]
 
 
+class Run:
+    """Indexed view of one threadsim result: events annotated with the
+    connection and session they belong to, one ConnView per connection."""
+
+    def __init__(self, sc, reqs, res):
+        self.sc, self.reqs, self.res = sc, reqs, res
+        self.events = res.get("events", [])
+        ptr2 = {}
+        for e in self.events:
+            if "conn" in e:
+                e["_conn"] = e["conn"]
+                if "session" in e:
+                    e["_sess"] = e["session"]
+                    if "ptr" in e:
+                        ptr2[e["ptr"]] = (e["conn"], e["session"])
+            elif "ptr" in e and e["ptr"] in ptr2:
+                e["_conn"], e["_sess"] = ptr2[e["ptr"]]
+        self.budget_hit = any(e["k"] == "BUDGET" for e in self.events)
+        self.unresolved = [e for e in self.events if e["k"] in ("R", "C") and "_conn" not in e]
+        self.views = [ConnView(self, c) for c in range(len(sc["conns"]))]
+        self.wire = [e for e in self.events if e["k"] == "WIRE"]
+        self.writer_died = any(v.writer_died for v in self.views)
+
+
+def _per_conn(fn):
+    def wrapped(run):
+        if isinstance(run, ConnView):
+            return fn(run)
+        out = []
+        if run.unresolved and run.res.get("outcome") == "ok":
+            return [("model-desync", f"{len(run.unresolved)} worker events of a session the connection registry never listed: "
+                                     f"{run.unresolved[0]}")]
+        for v in run.views:
+            out.extend(fn(v))
+            if out:
+                break
+        return out
+    wrapped.__doc__ = fn.__doc__
+    return wrapped
+
+
+@_per_conn
 def check_c30(run):
     """Returns list of (class, detail)."""
     out = []
@@ -241,6 +321,8 @@ def check_c30(run):
         cls = "deadlock" if "deadlock" in oc.lower() else ("step-limit" if "exceeded" in oc.lower() or "max_steps" in oc.lower()
                                                          else "server-thread-panicked")
         return [(cls, f"the simulated server did not terminate cleanly: {oc[:500]}")]
+    if run.desync:
+        return [("model-desync", run.desync)]
     if run.writer_died or run.budget_hit:
         return out
     seen_order = {}
@@ -396,6 +478,7 @@ def check_c30(run):
     return out
 
 
+@_per_conn
 def check_c31(run):
     """Reference model of the per-session interrupt flag, replayed over the
     totally ordered event log, compared with what each eval really did."""
@@ -415,18 +498,18 @@ def check_c31(run):
     for e in run.events:
         k = e["k"]
         if k == "I":
-            s = e.get("session") or run.ptr2sess.get(e["ptr"])
+            s = e.get("_sess")
             if s is None:
                 continue
             flag[s] = True
         elif k == "R":
-            s = e["thread"].replace("nrepl-session-", "")
+            s = e["_sess"]
             flag[s] = False
             idx[s] = idx.get(s, -1) + 1
             cur[s] = idx[s]
             verdict[(s, cur[s])] = {"must": False, "checks": 0, "after": 0, "consumed_at": None}
         elif k == "C":
-            s = e["thread"].replace("nrepl-session-", "")
+            s = e["_sess"]
             if s not in cur:
                 out.append(("model-desync", f"evaluation step in {s} before its worker dequeued anything"))
                 continue
